@@ -34,6 +34,17 @@ pub struct ShareReplay {
 
 fn gen_type(rng: &mut Rng, depth: u32) -> Type {
     let st = crate::gen::ALL_ST[rng.usize_below(11)];
+    if rng.chance(1, 16) {
+        // large leaves (the generators have separate paths for long requests)
+        return match rng.below(6) {
+            0 => array_type(vec![500 + rng.below(200)], UINT8),
+            1 => array_type(vec![8192], BIT),
+            2 => array_type(vec![16, 16], ciphercore_base::data_types::INT32),
+            3 => array_type(vec![64 + rng.below(40)], UINT64),
+            4 => array_type(vec![256 + rng.below(100)], ciphercore_base::data_types::UINT16),
+            _ => array_type(vec![32 + rng.below(16)], ciphercore_base::data_types::UINT128),
+        };
+    }
     if depth == 0 || rng.chance(3, 5) {
         return match rng.below(5) {
             0 => scalar_type(st),
@@ -163,6 +174,31 @@ pub fn check_share(api: &str, t: &Type, secret: &Value, dealer_seed: u64, lost: 
         for s in 0..3usize {
             if typed_eq(t, &bundles[s][s], &bundles[s][(s + 1) % 3]) {
                 return Some(("shares-not-independent".into(), format!("the two shares held by party {} are identical", s)));
+            }
+        }
+    }
+    // ... and neither is a shifted copy of (part of) the other, nor of the junk slot: the dealer's random stream must
+    // not be reused between the values one party gets to see (any two shares are jointly uniform)
+    if crate::vals::all_bytes_full(t) {
+        for p in 0..3usize {
+            let a = crate::vals::flat_bytes(&bundles[p][p]);
+            let b = crate::vals::flat_bytes(&bundles[p][(p + 1) % 3]);
+            let j = crate::vals::flat_bytes(&bundles[p][(p + 2) % 3]);
+            let mut pairs: Vec<(&str, &Vec<u8>, &Vec<u8>, bool)> = vec![("its two shares", &a, &b, false), ("its first share and itself", &a, &a, true), ("its second share and itself", &b, &b, true)];
+            if api != "share_vector" {
+                pairs.push(("its first share and its junk slot", &a, &j, false));
+                pairs.push(("its second share and its junk slot", &b, &j, false));
+            }
+            for (what, x, y, same) in pairs {
+                if x.len() >= 16 {
+                    *counters.entry("shifted-copy-tests".into()).or_insert(0) += 1;
+                }
+                if let Some((d, m, k)) = crate::vals::shifted_copy(x, y, same) {
+                    return Some((
+                        "shares-not-independent".into(),
+                        format!("party {}: {} agree in {} of {} byte positions at shift {} (independent uniform bytes agree in 1 of 256): the dealer's random stream is reused", p, what, k, m, d),
+                    ));
+                }
             }
         }
     }
@@ -352,7 +388,7 @@ pub fn run_c14(args: &Args) -> i32 {
             let api = *rng.pick(&["get_local_shares_for_each_party", "secret_share_for_parties", "share_vector"]);
             let t = if api == "share_vector" {
                 let ints: Vec<ScalarType> = crate::gen::ALL_ST.iter().cloned().filter(|s| *s != BIT).collect();
-                array_type(vec![1 + rng.below(12)], *rng.pick(&ints))
+                array_type(vec![if rng.chance(1, 10) { 200 + rng.below(400) } else { 1 + rng.below(40) }], *rng.pick(&ints))
             } else {
                 gen_type(&mut rng, 2)
             };
